@@ -240,6 +240,40 @@ func c18ValidClusterRoleRule(r rbacv1.PolicyRule) bool {
 	return len(r.APIGroups) > 0 && len(r.Resources) > 0
 }
 
+// ---------------------------------------------------------------- tree monitor
+
+// c18MonTree: a path may be allowed only if some inserted, non-empty path matches a prefix
+// of it component by component, each component equal or "*" (what a rule tree is for).
+func c18MonTree(s c18Scn, obs c18Obs) []Mon {
+	match := func(p, q []string) bool {
+		if len(p) == 0 || len(p) > len(q) {
+			return false
+		}
+		for i := range p {
+			if p[i] != q[i] && p[i] != "*" {
+				return false
+			}
+		}
+		return true
+	}
+	for i, q := range s.Queries {
+		if i >= len(obs.Allowed) {
+			break
+		}
+		want := false
+		for _, p := range s.Paths {
+			want = want || match(p, q)
+		}
+		if obs.Allowed[i] && !want {
+			return []Mon{{Sig: "C18:tree-allows-unlisted-path", Why: fmt.Sprintf("path %v allowed, inserted paths %v", q, s.Paths)}}
+		}
+		if !obs.Allowed[i] && want {
+			return []Mon{{Sig: "C18:tree-refuses-listed-path", Why: fmt.Sprintf("path %v refused, inserted paths %v", q, s.Paths)}}
+		}
+	}
+	return nil
+}
+
 // ---------------------------------------------------------------- validate monitor
 
 // c18SubRule maps a granular Kubernetes sub-rule to the rule-tree rule Expand derives from it.
@@ -436,9 +470,20 @@ func c18MonReconcile(s c18Scn, before []c18Role, obs c18Obs, rejected []roles.Ru
 	if (len(rejected) > 0 || verr != nil) && anyWrite {
 		mons = append(mons, Mon{Sig: "C18:role-written-despite-rejection", Why: fmt.Sprintf("%d requested rule(s) rejected (validator error: %v) but writes happened: %v", len(rejected), verr, obs.Writes)})
 	}
-	if s.Validator == "role" && anyWrite && verr == nil {
-		// end to end: roles were written, so every request was granted; each must be covered
-		mons = append(mons, c18MonValidate(c18Scn{Kind: "validate", Allow: s.Allow, Requests: t.Requests}, rejected, nil)...)
+	if anyWrite {
+		// end to end, independent of what the validator reported: roles were written, so every
+		// granular request counts as granted and must be covered by the allow list that exists
+		if s.Validator == "role" {
+			mons = append(mons, c18MonValidate(c18Scn{Kind: "validate", Allow: s.Allow, Requests: t.Requests}, nil, nil)...)
+		} else {
+			n := 0
+			for _, q := range t.Requests {
+				n += len(c18Breakdown(q.k8s()))
+			}
+			if n > 0 {
+				mons = append(mons, Mon{Sig: "C18:role-written-without-allow-list", Why: fmt.Sprintf("%d granular request(s), validator=%s (no allow-list role to cover them), but roles were written", n, s.Validator)})
+			}
+		}
 	}
 	prefix := "crossplane:provider:" + t.Name + ":"
 	mine := map[string]bool{prefix + "aggregate-to-edit": true, prefix + "aggregate-to-view": true, prefix + "system": true}
